@@ -934,8 +934,25 @@ def gen_sampler_case(rng, quick, tier):
                 m = in_modes(specs[cur])
             elif u < T[1]:
                 comp = gen_comp(rng, specs[cur]["n"], lossy, params)
+                free = [mm for mm in range(specs[cur]["n"]) if not any(o[0] == "her" and o[1] == mm for o in specs[cur]["ops"])]
+                if len(free) >= 2 and rng.random() < 0.25:
+                    # a herald added IN PLACE to the attached circuit object: the number of input modes drops,
+                    # the herald-removal bookkeeping of the sampler must follow
+                    comp = ["her", rng.choice(free), rng.choice([0, 0, 1])]
+                if comp[0] == "her" and not pending_input:
+                    # sampled before and after: the bookkeeping filled by the first sampling call must not
+                    # be reused for the new herald set
+                    steps.append({"op": "sample_n", "which": rng.choice(["outputs", "inputs"]), "N": rng.randint(20, 40),
+                                  "seed": rng.randint(0, 10**6)})
                 specs[cur]["ops"].append(comp)
                 steps.append({"op": "append", "comp": comp})
+                if comp[0] == "her":
+                    m = in_modes(specs[cur])
+                    cur_input = gen_input(rng, m)
+                    steps.append({"op": "input", "s": list(cur_input)})
+                    pending_input = False
+                    steps.append({"op": "sample_n", "which": rng.choice(["outputs", "inputs"]), "N": rng.randint(20, 40),
+                                  "seed": rng.randint(0, 10**6)})
             elif u < T[2]:
                 name = rng.choice(["r0", "t0"])
                 steps.append({"op": "param", "name": name, "value": rng.choice(REFL if name == "r0" else PHI)})
